@@ -5,6 +5,14 @@ V = os.path.dirname(os.path.dirname(os.path.abspath(__file__)))
 BASE = json.load(open("/root/.vp/BASELINE.json"))["cmd"] if os.path.exists("/root/.vp/BASELINE.json") else ""
 
 CHECKS = {
+ "C01": dict(engine="agg", design="§3 C01",
+   text="Lean theorems over a model of the node's write and read paths (ProcessPartialBeacon, runAggregator/tryAppend, SyncManager.tryNode, callbackStore.Put on the C02 store stack, PublicRand, drandProxy.Get, SyncChain/PublicRandStream), for every cryptographic oracle and every finite event list (any interleaving of peers' partials, own partials, aggregator iterations on its two channels, reordered store notifications, sync streams, vault switches, clock ticks, read requests): every stored beacon of round >= 1 verifies under the chain key for the digest of exactly its round and (chained) previous signature (c01_store_valid, hypothesis KeyConst = reshares keep the group key); each write path hands the store only a beacon that itself passed VerifyRecovered/VerifyBeacon; the digest preimage determines the round and, chained, the previous signature (unconditional; for the hash under an explicit collision-freedom hypothesis); every served beacon is in the store hence verifies; randomness fields equal H(signature) at Beacon.Randomness, drandProxy.Get, proxyStream.Send; a successful PublicRand/Get for round r != 0 returns round r on both the Get and the wait-for-next branch, a missing round is an error. Tied to the code by regenerated digest layouts (5 schemes), VerifyBeacon/RandomnessFromSignature shapes and statement skeletons of the six functions (rfl/decide), and by running a real beacon.Handler / SyncManager.tryNode / SyncChain / core PublicRand+Proxy against the model with packets labelled by the real verifier, plus a direct oracle (scheme.VerifyBeacon of every base-store Put and every served beacon, sha256 of the signature, exact round).",
+   note="Lean kernel + standard axioms; crypto as oracle (kyber not verified); goroutines/channels modelled as events (bounded channels as lists); HTTP handler not exercised (its Get is drandProxy.Get; waiter release logic out of scope); settling of the real aggregator relies on the harness's sentinel/barrier protocol; sampled: the correspondence (seeded random sequences, 5 schemes x 5 (n,t) x 2 stores).",
+   technique="Lean 4 proof (invariant by induction over event lists, byte-level injectivity of the digest preimage) + go2lean facts tied by rfl/decide + differential correspondence with labelled real crypto + direct property oracle"),
+ "C03": dict(engine="agg", design="§3 C03",
+   text="Lean theorems over the same node model and the partial-cache model of C12: after any event list every partial waiting for or cached by the aggregator is filed under the index it names and under exactly the (round, previous signature) it was sent for, and was admitted by ProcessPartialBeacon under a group view live at that time (member index, not this node's address or share index, valid under that group's polynomial for that digest) or is the node's own (c03_admitted); within a round cache signer indices are distinct (c03_len_counts_distinct, via C12Cache's c03_distinct on the node's cache); whenever an aggregator iteration reaches tryAppend with a beacon, the cache for exactly its (round, prev) holds >= live threshold partials at pairwise distinct indices each verifying under the live polynomial (c03_threshold, under RecoverSpec) — for every reachable state (c03_threshold_reachable); below the threshold the iteration stops before Recover and nothing is put; one lemma per class of packet that never counts: invalid, malformed/truncated, non-member index, own address, own index, outside the round window, wrong round and wrong previous signature (chained; under SignedOnly + collision freedom), duplicate/replay. Tied to the code by the regenerated skeletons of ProcessPartialBeacon and runAggregator (guards in order, all before the effect; decide) and by running the real Handler on exhaustive arrival orders of subsets of size t-1,t,t+1 (n <= 4) and random ones (n <= 7) with forged partials interleaved, against the model and against a count of delivered valid partials.",
+   note="Lean kernel + standard axioms; RecoverSpec is a hypothesis about kyber; 'no beacon anywhere with fewer than t contributors' (adversary offline) is BLS threshold unforgeability, assumed not proved; the network-level statement c03_below_threshold_network of DESIGN.md is not built (single-node statement c03_below_threshold only); harness as C01.",
+   technique="Lean 4 proof (cache-origin invariant by induction over event lists, Recover soundness hypothesis) + regenerated guard order (decide) + exhaustive/random differential correspondence + counting oracle"),
  "C16": dict(engine="time", design="§3 C16",
    text="Lean theorems over an exact (Int) layer and a machine (uint64/int64 wrap-explicit) layer of common/time.go: uniqueness of the current round, next = current+1 with its exact time, strict monotonicity, and for every 64-bit round the machine TimeOfRound is the exact time or the documented error value, never negative/wrapped; machine NextRound/CurrentRound equal the exact layer on the whole domain. Tied to the code by regenerated constants and a differential run of the real functions against the model's executable definitions.",
    note="Lean kernel + propext/Classical.choice/Quot.sound; IEEE-754 float division/Log2 of Go modelled as exact integer division / Nat.log2 (checked differentially on the complete power-of-two table and boundary-directed inputs); go2lean; harness.",
